@@ -164,6 +164,27 @@ CLAIMED = {
             "re-spacing (programs it cannot tokenise are skipped); span content rules cover variables, call arguments, error/import "
             "keywords, fixed field names",
             "DESIGN.md section C17"),
+    "C19": ("TLA+ spec Formatter (a formatter as a function text -> text | Declined constrained by Preserves/Diagnoses/Idempotent; "
+            "MeaningKept, TestAccepts, NeverFormatsInvalid checked by TLC for every such function over small domains); every generated "
+            "valid program x indent formatted by the implementation and the Format-event trace validated against Trace_Formatter (Prop=C19)",
+            "TLC enumerates all formatters satisfying the three constraints (3 texts, 2 meanings, 2 indents) and checks the user-level "
+            "invariants; programs: TLC-enumerated Core ASTs in two renderings, grammar-accepted token sequences, a construct-complete hand "
+            "list, repository programs, each also with numbered comments at token boundaries (every boundary x 4 comment kinds for the hand "
+            "list); event = digests of the evaluator parser's tree after SugarNorm for input and output + normalised comment sequences; "
+            "Trace_Formatter accepts a formatted valid program only if the output parses, means the same and keeps the comments; lost "
+            "comments are attributed to their place in the syntax tree",
+            "comment text compared up to marker, per-line blanks and * gutter; declining is accepted (counted); trusted: TLC, the harness AST "
+            "serializer, the Python SugarNorm",
+            "DESIGN.md section C19"),
+    "C20": ("TLA+ spec Formatter (Diagnoses, Idempotent => TestAccepts) model-checked by TLC; every C06 token sequence and literal, "
+            "random and mutated texts, and every generated valid program x indent x 2 passes run through the implementation, Format-event "
+            "trace validated against Trace_Formatter (Prop=C20); jrsonnet-fmt / jrsonnet-fmt --test executables on a sample",
+            "no crash outcome exists in the trace spec; a text of a systematic family that the evaluator's parser rejects must be Declined "
+            "(diagnostic rendered as the command renders it); a generated valid program that is formatted must be a fixed point of the second "
+            "pass for indent tabs/2/4; the command's output must be accepted by its --test mode",
+            "invalid = rejected by jrsonnet_ir_parser; fixed point judged on the generated valid programs (the property's quantifier); debug "
+            "build (dprint debug assertions are active)",
+            "DESIGN.md section C20"),
     "C04": ("TLA+ specs Total (per-thread outcome protocol and histories), Stack (frame counter) and StdSig (boundary "
             "tuples) model-checked by TLC; source texts, every std function x boundary tuples, recursion sweeps and TLC-enumerated "
             "failure histories executed on the implementation and trace-validated against Trace_Total",
